@@ -40,3 +40,16 @@ MUTANTS = [
     ("c16-n-zero-accepted", "C16", E + "nth_power.py", "elif i <= 0:", "elif i < 0:", "NthPower.__init__", True),
     ("c16-log-base-one", "C16", E + "logarithm.py", "        elif base == 1:\n            raise er.DomainError(\"Logarithm(x) cannot have base = 1\")\n\n    @property", "\n    @property", "Logarithm.__init__", True),
 ]
+
+MUTANTS += [
+    ("c12-point-eq-ignores-class", "C12", P + "point.py", "(other.__class__ == self.__class__) and\n            (other._coordinates == self._coordinates)", "(other._coordinates == self._coordinates)", "Point.__eq__", True),
+    ("c12-point-hash-unsorted", "C12", P + "point.py", "data = tuple(sorted(self._coordinates.items()))", "data = tuple(self._coordinates.items())", "Point.__hash__", True),
+    ("c12-partial-eq-ignores-variable", "C12", P + "partial.py", "(self._original_expression == other._original_expression) and\n            (self._variable_name == other._variable_name)", "(self._original_expression == other._original_expression)", "Partial.__eq__", True),
+    ("c12-located-hash-ignores-point-benign", "C12", P + "located_differential.py", "return hash((\"LocatedDifferential\", self._original_expression, self._point))", "return hash((\"LocatedDifferential\", self._original_expression))", "LocatedDifferential.__hash__", False),
+    ("c12-derivative-hash-id", "C12", P + "derivative.py", "return hash((\"Derivative\", self._original_expression))", "return hash((\"Derivative\", id(self)))", "Derivative.__hash__", True),
+    ("c13-partial-prints-bare-name", "C13", P + "partial.py", "variable_string = f\"Variable(\\\"{self._variable_name}\\\")\"", "variable_string = f\"{self._variable_name}\"", "Partial.__repr__", True),
+    ("c13-point-drops-values", "C13", P + "point.py", "f'{variable_name}={value}'", "f'{variable_name}'", "Point[k=2]", True),
+    ("c14-coordinate-defaults-to-zero", "C14", P + "point.py", "value = self._coordinates.get(variable_name, None)", "value = self._coordinates.get(variable_name, 0)", "Point.coordinate", True),
+    ("c14-binary-forgets-right-variables", "C14", B + "binary_expression.py", "variable_names = left._variable_names.union(right._variable_names)", "variable_names = left._variable_names", "Minus", True),
+    ("c14-number-for-two-variables", "C14", B + "expression.py", "    elif variable_names_count == 0:\n        return \"whatever\"\n    else:\n        raise Exception(exception_message)", "    else:\n        return \"whatever\"", "Minus.at(number)", True),
+]
